@@ -22,7 +22,7 @@ from enum import Enum
 
 class Controller:
     record = None          # dict content_key -> count, when recording
-    deviation = None       # (content_key, permutation tuple of indices) or None
+    deviation = None       # dict content_key -> permutation tuple of indices, or None
     log_path = None
 
 
@@ -56,8 +56,10 @@ class VSet(set):
         if rec is not None:
             rec[key] = rec.get(key, 0) + 1
         dev = Controller.deviation
-        if dev is not None and dev[0] == key and len(dev[1]) == len(items):
-            items = [items[i] for i in dev[1]]
+        if dev is not None:
+            perm = dev.get(key)
+            if perm is not None and len(perm) == len(items):
+                items = [items[i] for i in perm]
         return iter(items)
 
     # set-returning operations must stay VSet
